@@ -21,5 +21,6 @@ def cfg : Cfg where
     ("nat", "__float__", "hugr:arithmetic.conversions.convert_u"),
     ("nat", "__int__", "noop"),
     ("nat", "__nat__", "noop")]
+  setitemIndexSlot := "fresh"
 
 end GuppyVerif.C16Gen
